@@ -5,6 +5,7 @@ import ast
 
 from ..model import AnalysisError
 from ..tfpsig import installed_signatures, FROZEN
+from ..symeval import subterms
 from .util import mk_ev, summarize, func_loc, short, N, C, is_call
 from . import pjaxr
 from .pjaxr import unp
@@ -174,37 +175,48 @@ def adev_param_agreement(ctx, rule="SIB-estimator-parameterisation"):
         st = docs[name][0]
         return resolve_ctor(st.value.args[0], sigs)
 
-    def keyful_binding(fn):
-        """def f(key, a, b, sample_shape=()): return tfd.X(...).sample(...)  ->  (class, [tfp param for a, b])"""
-        rets = [r for r in ast.walk(fn) if isinstance(r, ast.Return)]
-        if len(rets) != 1:
+    from ..symeval import ts as _ts
+
+    def keyful_binding(fn, dotted):
+        """Decided on the evaluator's value of the keyful sampler (private helpers it delegates to are inlined):
+        tfd.X(<site arguments>).sample(seed=key, sample_shape=sample_shape)  ->  (class, [tfp parameter of site argument i], fixed kwargs, sample kwargs)."""
+        ev = mk_ev(ctx)
+        s_ = summarize(ctx, ev, dotted)
+        v = s_.ret
+        if not (is_call(v) and v[1][0] == "attr" and v[1][2] == "sample" and is_call(v[1][1])):
             return None
-        v = rets[0].value
-        if not (isinstance(v, ast.Call) and isinstance(v.func, ast.Attribute) and v.func.attr == "sample" and isinstance(v.func.value, ast.Call)):
+        ctor = v[1][1]
+        cname = ctor[1][1] if ctor[1][0] == "name" else (_ts(ctor[1]) if ctor[1][0] == "attr" else None)
+        if cname is None or ".tfd." not in "." + cname and "distributions." not in cname:
             return None
-        ctor = v.func.value
-        if not (isinstance(ctor.func, ast.Attribute) and unp(ctor.func.value) == "tfd"):
-            return None
-        cls = ctor.func.attr
+        cls = cname.split(".")[-1]
         sig = sigs.get(cls, [])
-        params = [a.arg for a in fn.args.args if a.arg not in ("self", "key", "sample_shape")]
-        # methods unpack `a, b = args`
-        for st in fn.body:
-            if isinstance(st, ast.Assign) and unp(st.value) == "args":
-                t = st.targets[0]
-                params = [unp(e) for e in t.elts] if isinstance(t, ast.Tuple) else [unp(t)]
-        b = {}
-        for i, a in enumerate(ctor.args):
-            if isinstance(a, ast.Name) and i < len(sig):
-                b[a.id] = sig[i]
+        names = [a.arg for a in fn.args.posonlyargs + fn.args.args]
+        if fn.args.vararg is not None:
+            # method style: sample_with_key(self, key, *args, sample_shape=()) - site argument i is args[i]
+            A = ("param", fn.args.vararg.arg)
+            site = {}
+            for i in range(4):
+                site[("idx", A, C(i))] = i
+            nsite = 1 + max([site[x] for x in subterms(ctor) if x in site] or [-1])
+        else:
+            ps = [n_ for n_ in names if n_ not in ("self", "key", "sample_shape")]
+            site = {("param", n_): i for i, n_ in enumerate(ps)}
+            nsite = len(ps)
+        bind = [None] * nsite
+        for i, a_ in enumerate(ctor[2]):
+            if a_ in site and i < len(sig):
+                bind[site[a_]] = sig[i]
         fixed = {}
-        for k in ctor.keywords:
-            if isinstance(k.value, ast.Name) and k.value.id in params:
-                b[k.value.id] = k.arg
-            else:
-                fixed[k.arg] = unp(k.value)
-        kws = {k.arg: unp(k.value) for k in v.keywords}
-        return cls, [b.get(p) for p in params], fixed, kws
+        for k, val in ctor[3]:
+            if val in site:
+                bind[site[val]] = k
+            elif k is not None:
+                fixed[k] = short(val, ev, 60).replace("jnp.", "jnp.")
+        kws = {}
+        for k, val in v[3]:
+            kws[k] = val[1] if val[0] == "param" else short(val, ev, 40)
+        return cls, bind, fixed, kws
 
     n = 0
     for name, node in mod.defs.items():
@@ -225,7 +237,7 @@ def adev_param_agreement(ctx, rule="SIB-estimator-parameterisation"):
         kf = mod.defs.get(a[2])
         if not isinstance(kf, ast.FunctionDef) or base not in docs:
             raise AnalysisError(f"{construct}: keyful sampler {a[2]} or base distribution {base} not resolvable")
-        kb = keyful_binding(kf)
+        kb = keyful_binding(kf, "genjax.adev." + a[2])
         bb = base_binding(base)
         if kb is None or bb is None:
             raise AnalysisError(f"{construct}: keyful sampler shape not recognised")
@@ -256,7 +268,7 @@ def adev_param_agreement(ctx, rule="SIB-estimator-parameterisation"):
         if sw is None or sm is None:
             ctx.bad(rule, construct, "sample and sample_with_key defined", "missing", f"{mod.path}:{cnode.lineno}")
             continue
-        kb = keyful_binding(sw)
+        kb = keyful_binding(sw, f"genjax.adev.{cls}.sample_with_key")
         bb = base_binding(base)
         uses = [c for c in ast.walk(sm) if isinstance(c, ast.Call) and unp(c.func) == f"{base}.sample"]
         if kb is None or not uses:
